@@ -75,6 +75,8 @@ func main() {
 		os.Exit(cmdCheck(os.Args[2:]))
 	case "run":
 		os.Exit(cmdRun(os.Args[2:]))
+	case "replay":
+		os.Exit(cmdReplay(os.Args[2:]))
 	case "list":
 		P, _, err := load()
 		if err != nil {
@@ -154,6 +156,59 @@ func defaults(h *HarnessSpec) symx.Options {
 	return o
 }
 
+// cmdReplay re-runs one counterexample file natively against the repository.
+func cmdReplay(args []string) int {
+	if len(args) < 2 {
+		fmt.Fprintln(os.Stderr, "usage: gosymx replay <property> <file.json>")
+		return 2
+	}
+	b, err := ioutil.ReadFile(args[1])
+	if err != nil {
+		fmt.Fprintln(os.Stderr, err)
+		return 2
+	}
+	var rf replayFile
+	if err := json.Unmarshal(b, &rf); err != nil {
+		fmt.Fprintln(os.Stderr, err)
+		return 2
+	}
+	files, err := overlayFiles()
+	if err != nil {
+		fmt.Fprintln(os.Stderr, err)
+		return 2
+	}
+	pkg := harnessPkgDir(files, rf.Harness)
+	if pkg == "" {
+		fmt.Fprintln(os.Stderr, "harness not found:", rf.Harness)
+		return 2
+	}
+	abs, _ := filepath.Abs(args[1])
+	res, err := nativeReplay(files, pkg, []string{abs}, rf.Kind == "steps")
+	if err != nil {
+		fmt.Fprintln(os.Stderr, err)
+		return 2
+	}
+	fmt.Printf("harness=%s inputs: %s\nnative outcome: %s\n", rf.Harness, fmtInputs(rf.Inputs), res[0])
+	if strings.HasPrefix(res[0], "violation:") || strings.HasPrefix(res[0], "panic:") || res[0] == "timeout" {
+		fmt.Printf("VIOLATION property=%s replay=%s\n", args[0], abs)
+		return 1
+	}
+	return 0
+}
+
+// harnessPkgDir finds the package directory (relative to the repo) whose harness files define name.
+func harnessPkgDir(files map[string]string, name string) string {
+	re := regexp.MustCompile(`(?m)^func ` + regexp.QuoteMeta(name) + `\(\)`)
+	for virt, real := range files {
+		b, _ := ioutil.ReadFile(real)
+		if re.Match(b) {
+			rel, _ := filepath.Rel(repoDir, filepath.Dir(virt))
+			return "./" + rel
+		}
+	}
+	return ""
+}
+
 func cmdRun(args []string) int {
 	fs := flag.NewFlagSet("run", flag.ExitOnError)
 	name := fs.String("harness", "", "harness function name")
@@ -185,7 +240,7 @@ func cmdRun(args []string) int {
 		rc = 1
 		if *replay {
 			f := writeReplay("DEV", v, k)
-			res, err := nativeReplay(files, pkgDirOf(P, *name), []string{f})
+			res, err := nativeReplay(files, pkgDirOf(P, *name), []string{f}, v.Kind == "steps")
 			fmt.Printf("  native replay: %v %v\n", res, err)
 		}
 	}
@@ -256,7 +311,7 @@ var resultRe = regexp.MustCompile(`(?m)^VERIF-REPLAY-RESULT: (.*)$`)
 
 // nativeReplay runs the harness natively (go test -overlay) on each replay
 // file and returns one outcome per file.
-func nativeReplay(files map[string]string, pkgDir string, replays []string) ([]string, error) {
+func nativeReplay(files map[string]string, pkgDir string, replays []string, short ...bool) ([]string, error) {
 	tmp := filepath.Join(verifDir, "out", "tmp")
 	os.MkdirAll(tmp, 0o755)
 	pkgAbs := filepath.Join(repoDir, pkgDir)
@@ -296,7 +351,11 @@ func nativeReplay(files map[string]string, pkgDir string, replays []string) ([]s
 	ovf := filepath.Join(tmp, fmt.Sprintf("overlay_%d.json", os.Getpid()))
 	ioutil.WriteFile(ovf, ovb, 0o644)
 	defer os.Remove(ovf)
-	cmd := exec.Command("go", "test", "-vet=off", "-count=1", "-timeout", "300s", "-overlay", ovf, "-run", "^TestVerifReplay$", "-v", pkgDir)
+	tmo := "600s"
+	if len(short) > 0 && short[0] {
+		tmo = "20s"
+	}
+	cmd := exec.Command("go", "test", "-vet=off", "-count=1", "-timeout", tmo, "-overlay", ovf, "-run", "^TestVerifReplay$", "-v", pkgDir)
 	cmd.Dir = repoDir
 	cmd.Env = append(os.Environ(), "GOFLAGS=-mod=mod", "GOPROXY=off", "GOSUMDB=off", "GOTOOLCHAIN=local", "GOWORK=off", "VERIF_REPLAY="+strings.Join(replays, ","))
 	out, err := cmd.CombinedOutput()
@@ -304,6 +363,11 @@ func nativeReplay(files map[string]string, pkgDir string, replays []string) ([]s
 	var res []string
 	for _, m := range ms {
 		res = append(res, m[1])
+	}
+	if len(res) < len(replays) && strings.Contains(string(out), "test timed out") {
+		for len(res) < len(replays) {
+			res = append(res, "timeout")
+		}
 	}
 	if len(res) != len(replays) {
 		return res, fmt.Errorf("native replay produced %d results for %d files (err=%v):\n%s", len(res), len(replays), err, trunc(string(out), 3000))
@@ -458,7 +522,7 @@ func cmdCheck(args []string) int {
 		// violations: replay natively before reporting
 		for k, v := range hr.Violations {
 			f := writeReplay(prop, v, k)
-			res, err := nativeReplay(files, pkgDirOf(P, h.Name), []string{f})
+			res, err := nativeReplay(files, pkgDirOf(P, h.Name), []string{f}, v.Kind == "steps")
 			if err != nil {
 				fmt.Printf("ENGINE-DISCREPANCY: replay of %s failed to run: %v\n", f, err)
 				exit = 2
